@@ -106,11 +106,12 @@ theorem cache_triggerNoCache (e : Nat) (st : St) : (runM (triggerNoCache e) st).
 
 /-- (b) store condition: the end of `applyFunction` (`finishCall`, run after the body with the
 callee frame's miss counter `before`/`after` the body) leaves the cache as it was whenever the
-counter moved or the result is an error: an entry is stored only for a pure, successful call -/
+counter moved, the result is an error, or the result is or contains a function (a closure over the call's own
+environment): an entry is stored only for a pure, successful call returning plain data -/
 theorem C04.store_condition (f : FuncVal) (args : List Obj) (curState before after : Nat) (cantCache : Bool)
     (res : Obj) (output : Grol.Wire.Bytes) (st : St)
     (h : (stateAfter (finishCall f args curState before after cantCache res output) st).cache ≠ st.cache) :
-    after = before ∧ res.isError = false := by
+    after = before ∧ res.isError = false ∧ holdsFunc res = false := by
   refine Classical.byContradiction (fun hn => h ?_)
   rw [stateAfter_eq]
   unfold finishCall
@@ -118,17 +119,19 @@ theorem C04.store_condition (f : FuncVal) (args : List Obj) (curState before aft
   have key : ∀ s : St, s.cache = st.cache →
       (runM (if (after != before) = true then
           (triggerNoCache curState >>= fun _ => pure res)
-        else if res.isError = true then pure res else cacheSet f.key args res output >>= fun _ => pure res) s).2.cache
+        else if res.isError = true then pure res
+        else if holdsFunc res = true then pure res else cacheSet f.key args res output >>= fun _ => pure res) s).2.cache
         = st.cache := by
     intro s hs
     by_cases hab : after = before
-    · have hres : res.isError = true := by
-        cases hr : res.isError with
-        | true => rfl
-        | false => exact (hn ⟨hab, hr⟩).elim
-      subst hab
-      simp only [bne_self_eq_false, Bool.false_eq_true, if_false, hres, if_true]
-      rw [runM_pure]; exact hs
+    · subst hab
+      simp only [bne_self_eq_false, Bool.false_eq_true, if_false]
+      cases hr : res.isError with
+      | true => simp only [if_true]; rw [runM_pure]; exact hs
+      | false =>
+        cases hf : holdsFunc res with
+        | true => simp only [Bool.false_eq_true, if_false, if_true]; rw [runM_pure]; exact hs
+        | false => exact (hn ⟨rfl, hr, hf⟩).elim
     · have : (after != before) = true := by simpa using hab
       simp only [this, if_true]
       rw [runM_bind]
